@@ -509,7 +509,8 @@ impl RunState {
             // puts
             0x22 => {
                 // could probably rewrite with iterators but idk if worth
-                for addr in self.reg(0).. {
+                let start = self.reg(0);
+                for addr in (0..=u16::MAX).map(|offset| start.wrapping_add(offset)) {
                     let chr_raw = self.mem(addr);
                     let chr_ascii = (chr_raw & 0xFF) as u8 as char;
                     if chr_ascii == '\0' {
@@ -528,7 +529,8 @@ impl RunState {
             }
             // putsp
             0x24 => {
-                'string: for addr in self.reg(0).. {
+                let start = self.reg(0);
+                'string: for addr in (0..=u16::MAX).map(|offset| start.wrapping_add(offset)) {
                     let chr_raw = self.mem(addr);
                     for chr in [chr_raw >> 8, chr_raw & 0xFF] {
                         let chr_ascii = chr as u8 as char;
